@@ -906,3 +906,52 @@ def find_by_values(roots, envs, targets):
     for w, sig in targets:
         res.append(index.get((w, tuple(sig))))
     return res
+
+
+def cut_multi(roots, depth, prefix="cut"):
+    """consistent over-approximation of several terms: a node is kept iff its
+    minimum distance from any of the roots is <= depth; all other nodes become
+    fresh variables (one per node, shared by all roots)."""
+    dist = {}
+    from collections import deque
+    dq = deque()
+    for r in roots:
+        if isinstance(r, Term) and r.id not in dist:
+            dist[r.id] = 0
+            dq.append(r)
+    nodes = {}
+    while dq:
+        t = dq.popleft()
+        nodes[t.id] = t
+        d = dist[t.id]
+        if d >= depth:
+            continue
+        for a in t.args:
+            if isinstance(a, Term) and a.id not in dist:
+                dist[a.id] = d + 1
+                dq.append(a)
+    memo = {}
+
+    def build(t):
+        if not isinstance(t, Term):
+            return t
+        r = memo.get(t.id)
+        if r is not None:
+            return r
+        if t.op == "var":
+            memo[t.id] = t
+            return t
+        if t.id not in dist or (dist[t.id] >= depth and t.id not in roots_ids):
+            r = var("%s_%d" % (prefix, t.id), t.w)
+        else:
+            r = rebuild(t.op, tuple(build(a) for a in t.args), t.w, t.aux)
+        memo[t.id] = r
+        return r
+    roots_ids = set(r.id for r in roots if isinstance(r, Term))
+    import sys
+    old = sys.getrecursionlimit()
+    sys.setrecursionlimit(max(old, 20000))
+    try:
+        return [build(r) for r in roots]
+    finally:
+        sys.setrecursionlimit(old)
